@@ -212,6 +212,7 @@ var fieldGen = rapid.OneOf(
 	rapid.StringMatching(`[A-Za-z0-9_.:|-]{1,12}`),
 	rapid.StringMatching(`[ -:<>-~]{1,16}`), // printable ASCII without ';' and '='
 )
+
 // seqids: the characters the GFF3 specification allows unescaped in column 1 ([a-zA-Z0-9.:^*$@!+_?-|]);
 // in particular a seqid cannot start with '#' (the line would be a directive or comment by definition)
 var seqidGen = rapid.StringMatching(`[a-zA-Z0-9.:^*$@!+_?|-]{1,20}`)
